@@ -9,15 +9,18 @@ defect could hide from the workloads.  Writes run/cover/<CNN>.txt."""
 import json, os, re, subprocess, sys, shutil, collections
 pid = sys.argv[1]
 tier = sys.argv[2] if len(sys.argv) > 2 and sys.argv[2] in ("quick", "thorough") else "quick"
-subs = [a for a in sys.argv[2:] if a not in ("quick", "thorough")]
+subs = [a for a in sys.argv[2:] if a not in ("quick", "thorough", "-a", "-r")]
+ALL = "-a" in sys.argv        # -a: every file of the packages, not only the anchor files
+REPORT_ONLY = "-r" in sys.argv  # -r: re-print from the profile of the last run
 root = "/verif"
 env = dict(os.environ, VERIF_COVER="1", GOFLAGS="-mod=mod", GOPROXY="off", GOSUMDB="off", GOTOOLCHAIN="local")
 cov = root + "/run/cover/covdata"
-shutil.rmtree(cov, ignore_errors=True)
-p = subprocess.run(["./check", pid, tier], cwd=root, env=env, stdout=subprocess.PIPE, stderr=subprocess.STDOUT, text=True)
-print("check exit", p.returncode, p.stdout[-300:] if p.returncode else "")
 prof = root + "/run/cover/%s.prof" % pid
-subprocess.run(["go", "tool", "covdata", "textfmt", "-i=" + cov, "-o=" + prof], check=True, env=env, cwd=root + "/harness")
+if not REPORT_ONLY:
+    shutil.rmtree(cov, ignore_errors=True)
+    p = subprocess.run(["./check", pid, tier], cwd=root, env=env, stdout=subprocess.PIPE, stderr=subprocess.STDOUT, text=True)
+    print("check exit", p.returncode, p.stdout[-300:] if p.returncode else "")
+    subprocess.run(["go", "tool", "covdata", "textfmt", "-i=" + cov, "-o=" + prof], check=True, env=env, cwd=root + "/harness")
 props = {json.loads(l)["id"]: json.loads(l) for l in open(root + "/properties.jsonl")}
 anchors = props[pid]["anchors"]["files"]
 if not subs:
@@ -36,7 +39,9 @@ tot = cv = 0
 for f in sorted(blocks):
     if not any(os.path.dirname(f) == s or (s and s in f) for s in subs):
         continue
-    if f.endswith("_verif.go") or f.startswith("verifhook"):
+    if f.endswith("_verif.go") or f.startswith("verifhook") or "dispatch_verif" in f:
+        continue
+    if not ALL and f not in anchors and not any(s2 in f for s2 in sys.argv[2:] if s2.endswith(".go")):
         continue
     t = sum(n for n, _ in blocks[f].values())
     c = sum(n for n, k in blocks[f].values() if k)
